@@ -337,6 +337,28 @@ func (c13) Exec(ctx *core.Ctx, cs *core.Case) {
 		if !run(der, tder, src, ph[1], "operating on the "+derName) {
 			return
 		}
+		if cs.Check == "resolve" {
+			// the SAME reference resolved against the same base value again, after the owner of the first result
+			// has changed that result: the second result must be what a fresh base gives (a base that remembers
+			// the value it handed out shares state with it)
+			var again, want *url.Url
+			var e1, e2 error
+			fresh, err, p := parseImpl(ctx, parser, base, "", false, false)
+			if p == nil && err == nil && fresh != nil {
+				if prefetch {
+					_ = fresh.SearchParams().String()
+				}
+				p1 := ctx.Call(budget, func() { again, e1 = src.Parse(input) })
+				p2 := ctx.Call(budget, func() { want, e2 = fresh.Parse(input) })
+				if p1 == nil && p2 == nil && e1 == nil && e2 == nil && again != nil && want != nil {
+					ctx.Count("re_resolutions")
+					if a, b := takeFull(want, names).noErrs(), takeFull(again, names).noErrs(); a != b {
+						ctx.Violate("resolving the same reference again, after the first result was modified by its owner, gives a different result than a fresh base does", a.s.Href, b.s.Href, diffFull(a, b))
+						return
+					}
+				}
+			}
+		}
 		run(src, tsrc, der, ph[2], "operating on the "+srcName)
 	} else {
 		if !run(src, tsrc, der, ph[2], "operating on the "+srcName) {
